@@ -9,14 +9,15 @@ observer and (in env mode) the environment's returns must coincide (the model-fr
 TIE (non-env cases): the same creation script + episodes + reset + h2 is translated into the model sessions the
 theorems of coq/properties/C12b.v are about, and world A is compared with the model after the creation script, after
 every reset and after EVERY dispatch of h2:
-  * feature observers (command 1101, coq/model/CmdC11.v, FeatureObservers.v): the constructor steps `feat`,
-    `unsched`, `composite` that precede the graph updater (objects created later never influence earlier ones; a
-    script with such steps after the updater is tied on that prefix only and counted `tie_skipped`), compared: the
-    whole subscriber system restricted to those objects and the dependencies they created (every feature vector,
-    earliest_start_times, remaining_ops_per_*, deques, composite matrices and column names) and the schedule rows;
-  * residual graph updater (command 1701, coq/model/CmdC17.v, Residual.v): the dependency-relevant observers
-    created before it (`unsched`, RemainingOperations, IsCompleted) as `pre`, its options and builder, compared:
-    removed_nodes, the edge set, flags and counters of its IsCompletedObserver.
+  * feature observers (command 1201, coq/model/CmdC12.v = CmdC11's session of FeatureObservers.v plus one event for
+    the IsCompletedObserver a ResidualGraphUpdater creates-or-gets): the constructor steps `feat`, `unsched`,
+    `composite`, `rgu`; compared: the whole system of feature-class subscribers in subscription order, dependencies
+    created by constructors included (every feature vector, earliest_start_times, remaining_ops_per_*, deques,
+    composite matrices, components and column names) and the schedule rows;
+  * residual graph updater (command 1202 = CmdC17's updater session of Residual.v, on a graph that may have lost
+    nodes before the updater got it): the dependency-relevant observers created before it (`unsched`,
+    RemainingOperations, IsCompleted) as `pre`, its options and builder, compared: removed_nodes, the edge set, flags
+    and counters of its IsCompletedObserver.
 History / reward observers are not part of those model worlds (their reset theorem is C12.v's; they do not interact
 with the others) and are judged by the oracle only; environment cases are oracle-only (`tie_skipped_env`)."""
 from __future__ import annotations
@@ -51,7 +52,12 @@ def creation_script(rng, allow_est):
     if rng.random() < 0.3:
         steps.append(["idle"])
     if rng.random() < 0.55:
-        steps.append(["rgu", rng.randrange(4), int(rng.random() < 0.8), int(rng.random() < 0.8)])
+        st = ["rgu", rng.randrange(4), int(rng.random() < 0.8), int(rng.random() < 0.8)]
+        if rng.random() < 0.25:
+            # the updater is handed a graph that already lost some nodes (legal: remove_node is public API);
+            # entries are reduced modulo the number of nodes
+            st.append([rng.randrange(1000) for _ in range(rng.randint(1, 2))])
+        steps.append(st)
     rng.shuffle(steps)
     if rng.random() < 0.4:
         comp = [i for i, s in enumerate(steps) if s[0] == "feat"]
@@ -101,6 +107,12 @@ class World:
                 o = IdleTimeReward(d)
             elif st[0] == "rgu":
                 g = getattr(graphs, session.GRAPH_BUILDERS[st[1]])(self.instance)
+                self.pre_removed = []
+                for r in (st[4] if len(st) > 4 else []):
+                    nid = r % len(g.nodes)
+                    self.pre_removed.append(nid)
+                    if not g.is_removed(nid):
+                        g.remove_node(nid)
                 o = ResidualGraphUpdater(d, g, remove_completed_machine_nodes=bool(st[2]),
                                          remove_completed_job_nodes=bool(st[3]))
             elif st[0] == "composite":
@@ -136,13 +148,15 @@ def run_history(world, hist):
     return outs
 
 
-FEATISH = ("feat", "unsched", "composite")
+FEATISH = ("feat", "unsched", "composite", "rgu")
 
 
 def tie_plan(steps):
-    """(index of the updater step or None, number of leading steps the feature session covers)"""
+    """(index of the updater step or None, number of leading steps the feature session covers: all of them)"""
     rgu_at = next((i for i, st in enumerate(steps) if st[0] == "rgu"), None)
-    return rgu_at, (len(steps) if rgu_at is None else rgu_at)
+    if sum(1 for st in steps if st[0] == "rgu") > 1:
+        return rgu_at, rgu_at + 1        # command 1701 models ONE updater: later steps are outside both sessions
+    return rgu_at, len(steps)
 
 
 class TieView:
@@ -159,8 +173,8 @@ class TieView:
         rgu_at, upto = tie_plan(steps)
         self.updater = world.objs[rgu_at] if rgu_at is not None else None
         self.refresh()
-        # feature-class subscribers created by the steps before the updater (in subscription = creation order)
-        self.nfeat = world.nfeat_before[rgu_at] if rgu_at is not None else len(self.objs)
+        # feature-class subscribers created by the covered steps (in subscription = creation order)
+        self.nfeat = world.nfeat_before[upto] if upto < len(steps) else len(self.objs)
         # creation-step index -> index in that list (the model's object index)
         self.fmap = {i: self.index_of(world.objs[i]) for i, st in enumerate(steps[:upto]) if st[0] == "feat"}
 
@@ -181,7 +195,7 @@ class TieView:
 
 
 def feature_events(steps, fmap):
-    """the creation steps the feature session (command 1101) can express, as its events"""
+    """the creation steps as events of the feature session (command 1201)"""
     _, upto = tie_plan(steps)
     evs = []
     for i, st in enumerate(steps[:upto]):
@@ -191,6 +205,8 @@ def feature_events(steps, fmap):
             evs.append([2, 8, [1, 1, 1], []])     # create-or-get: a second one is refused by the model, no change
         elif st[0] == "composite":
             evs.append([2, 7, [1, 1, 1], [[fmap[str(c)] for c in st[1]]]])
+        elif st[0] == "rgu":
+            evs.append([4, st[2], st[3]])         # the IsCompletedObserver the updater creates or gets
     return evs
 
 
@@ -206,6 +222,31 @@ def updater_pre(steps):
         elif st[0] == "feat" and st[1] == 6:
             pre.append([2, int(0 in st[2]), int(1 in st[2]), int(2 in st[2])])
     return pre
+
+
+def sparse_states(world, case):
+    """h2 on `world`, looking at it only after as many dispatches as the last episode before the reset had (if h2
+    is that long) and at the end: observations made by the harness itself must not be what keeps things fresh"""
+    k = len(case["h1"][-1]) if case["h1"] else -1
+    outs = []
+    for i, (j, p, m) in enumerate(case["h2"], 1):
+        world.do(j, p, m)
+        if i in (k, len(case["h2"])):
+            outs.append(json.dumps(world.state(), sort_keys=True, default=str))
+    return outs
+
+
+def sparse_run(case):
+    """second, sparsely observed pair of worlds (non-env cases): A' = creation script, every episode of h1 dispatched
+    WITHOUT looking, one look at the end of the episode, reset; B' = fresh twin; both then run `sparse_states`"""
+    a = World(case["spec"], case["filters"], case["steps"], None)
+    for h in case["h1"]:
+        for j, p, m in h:
+            a.do(j, p, m)
+        a.state()
+        a.reset()
+    b = World(case["spec"], case["filters"], case["steps"], None)
+    return [sparse_states(a, case), sparse_states(b, case)]
 
 
 def gen_history(rng, spec, complete_prob=0.5):
@@ -225,21 +266,30 @@ def gen_history(rng, spec, complete_prob=0.5):
 class C12(Check):
     pid = "C12"
     assumptions = ["valid instance, non-empty jobs (graph builders need them)",
+                   "observers are constructed on the new dispatcher (before the first dispatch), nobody unsubscribes; a "
+                   "composite's explicit components exist when it is constructed (hypothesis `scoped` of C12b.v)",
                    "observers are compared through their public attributes (features, rewards, history, deques, "
                    "graph removed-flags and edges, subscriber list) and the environment through reset()/step() returns"]
     modelled_not_verified = [
-        "the oracle of this check is model-free: state after reset + h2 versus a freshly constructed twin after h2, "
-        "on the real objects",
-        "modelled (Coq): Dispatcher.reset and the reset of History / UnscheduledOperations / MakespanReward / "
-        "IdleTimeReward observers (coq/model/World.v, Observers.v), the residual graph updater's reset "
-        "(coq/model/Residual.v), the feature observers' reset (coq/model/FeatureObservers.v when present)"]
+        "modelled (Coq) and tied by differential execution after the creation script, every reset and every dispatch "
+        "of h2: Dispatcher.reset/dispatch, constructors (create-or-get dependencies included) / update / reset of the "
+        "seven feature observers, CompositeFeatureObserver and UnscheduledOperationsObserver "
+        "(coq/model/FeatureObservers.v, session command 1201 of CmdC12.v), ResidualGraphUpdater with the observers it "
+        "depends on and GraphUpdater.reset's deep-copy restore (coq/model/Residual.v, Graph.v, command 1701), both "
+        "with the initialisation as repaired by /repo commits 196fa58, b64948b, f806e65",
+        "History / MakespanReward / IdleTimeReward observers: modelled in coq/model/Observers.v (theorems of C12.v); in "
+        "this check they are judged by the model-free oracle only (they do not interact with the other observers)",
+        "SingleJobShopGraphEnv.reset()/step(): not modelled for this property; environment cases are decided by the "
+        "model-free oracle (state after reset + h2 versus a freshly constructed twin after h2, on the real objects)",
+        "numpy / networkx / copy.deepcopy contracts as in C11 and C17 (validated by sampling only)"]
     nontrivial_rule = ("random creation scripts (1-5 feature observers with random feature types, unscheduled / history "
                        "/ reward observers, residual graph updater on a random builder, composite), random order; or a "
-                       "SingleJobShopGraphEnv with random configuration; h1 partial or complete, reset, h2; "
+                       "SingleJobShopGraphEnv with random configuration; a quarter of the updaters get a graph with 1-2 "
+                       "nodes already removed; h1 partial or complete, reset, h2; "
                        "non-trivial = h1 has >= 2 dispatches and h2 >= 1; distinct = SHA1 of the case")
 
     def budget(self):
-        return 250 if self.tier == "quick" else 2500
+        return 500 if self.tier == "quick" else 2500
 
     def search_budget(self):
         return 400 if self.tier == "quick" else 3000
@@ -313,7 +363,9 @@ class C12(Check):
                "steps": [[json.dumps(x, sort_keys=True, default=str), json.dumps(y, sort_keys=True, default=str)]
                          for x, y in zip(outs_a, outs_b)]}
         if view:
-            obs["tie"] = {"snaps": snaps, "nfeat": view.nfeat, "fmap": {str(k): v for k, v in view.fmap.items()}}
+            obs["tie"] = {"snaps": snaps, "nfeat": view.nfeat, "fmap": {str(k): v for k, v in view.fmap.items()},
+                          "pre_removed": getattr(a, "pre_removed", [])}
+            obs["sparse"] = sparse_run(case)
         return obs
 
     @staticmethod
@@ -340,12 +392,12 @@ class C12(Check):
         reqs = []
         if tie["nfeat"] > 0:
             cre = feature_events(steps, tie["fmap"])
-            reqs.append((1101, [case["spec"], case["filters"],
+            reqs.append((1201, [case["spec"], case["filters"],
                                 cre + [[0, e[1], e[2], [e[3]]] if e[0] == 0 else [1] for e in evs]]))
         if rgu_at is not None:
             st = steps[rgu_at]
-            reqs.append((1701, [case["spec"], case["filters"], c17.ENV_BUILDER[st[1]], updater_pre(steps),
-                                st[2], st[3], evs]))
+            reqs.append((1202, [case["spec"], case["filters"], c17.ENV_BUILDER[st[1]], updater_pre(steps),
+                                st[2], st[3], evs, tie["pre_removed"]]))
         return reqs
 
     def judge_tie(self, case, obs, outs):
@@ -360,7 +412,7 @@ class C12(Check):
             ("after the reset" if evs[k] == [1] else f"after dispatch {evs[k][1:]} of h2") + f" (event #{k})"
             for k in marks]
         if any(st[0] in FEATISH for st in steps[upto:]):
-            self.note("tie_skipped")                      # feature observers created after the updater: prefix only
+            self.note("tie_skipped")                      # a second updater: only the steps up to the first are tied
         if tie["nfeat"] > 0:
             self.note("tie_features")
             model = outs.pop(0)
@@ -392,10 +444,12 @@ class C12(Check):
                             break
                     fails.append(Failure("tie", "features:impl-vs-model", detail))
                     break
-        elif any(st[0] in FEATISH for st in steps[:upto]):
+        elif any(st[0] in ("feat", "unsched", "composite") for st in steps[:upto]):
             fails.append(Failure("tie", "features:none-subscribed", "feature constructor steps left no subscriber"))
         if rgu_at is not None:
             self.note("tie_updater")
+            if tie["pre_removed"]:
+                self.note("tie_updater_on_graph_with_removed_nodes")
             model = outs.pop(0)
             if model[0] != 1:
                 return fails + [Failure("tie", "updater:builder-raises", "the model's builder raised")]
@@ -441,6 +495,12 @@ class C12(Check):
                 fails.append(Failure("oracle", "episode-after-reset:" + where(y, x),
                                      f"dispatch #{i} of the episode after the reset behaves differently than on fresh "
                                      f"objects", expected=diff(y, x)))
+                break
+        for x, y in zip(*obs.get("sparse", [[], []])):
+            if x != y:
+                fails.append(Failure("oracle", "sparsely-observed-episode:" + where(y, x),
+                                     "an episode after the reset that is only looked at once or twice differs from "
+                                     "the same episode on fresh objects", expected=diff(y, x)))
                 break
         return fails
 
